@@ -1,7 +1,7 @@
 import SaModel.Data.SValTyped
 import SaModel.Lemmas.C03LR
 /-
-`SValOK` (the row hypothesis of `push_LR` / `C03_wf`) follows from the typing invariant `SVal.typed` of
+`SValOK` (the row hypothesis of `push_LR` / `C03_wfS`) follows from the typing invariant `SVal.typed` of
 `Data/SValTyped.lean`: `typed_SValOK`.  So the only thing C03 asks of the rows is that they are well-typed serde call
 streams — which the wire decoder of the driver checks and every Rust program satisfies by construction.
 -/
